@@ -1097,13 +1097,13 @@ TYPING_CASES = [   # (method, token kinds it is dispatched for, operand counts, 
     ('ViDebool', ['DEBOOL'], (1,), [None]),
     ('ViCard', ['CARD'], (1,), [None]),
     ('ViReduce', ['REDUCE'], (1,), [None]),
-    ('ViProjectSet', ['BIGPR'], (1,), [[1], [2], [3], [1, 2], [2, 1], [1, 3]]),
-    ('ViProjectTuple', ['SMALLPR'], (1,), [[1], [2], [3], [1, 2], [2, 1]]),
+    ('ViProjectSet', ['BIGPR'], (1,), [[1], [2], [3], [1, 2], [2, 1], [1, 3], [0], [1, 0]]),
+    ('ViProjectTuple', ['SMALLPR'], (1,), [[1], [2], [3], [1, 2], [2, 1], [0], [0, 1]]),
     ('ViArithmetic', ['PLUS', 'MINUS', 'MULTIPLY'], (2,), [None]),
     ('ViIntegerPredicate', ['GREATER', 'LESSER', 'GREATER_OR_EQ', 'LESSER_OR_EQ'], (2,), [None]),
     ('ViEquals', ['EQUAL', 'NOTEQUAL'], (2,), [None]),
     ('ViSetexprPredicate', ['IN', 'NOTIN', 'SUBSET', 'SUBSET_OR_EQ', 'NOTSUBSET'], (2,), [None]),
-    ('ViFilter', ['FILTER'], (2, 3), [[1], [2], [1, 2], [2, 1], [3]]),
+    ('ViFilter', ['FILTER'], (2, 3), [[1], [2], [1, 2], [2, 1], [3], [0]]),
 ]
 
 
@@ -1182,10 +1182,6 @@ def typing_rules(db, rule, tier='quick'):
                             return T(('b', o['v']))
                         o['v'] = ('b', o['v'])
                         return o
-                if last == 'TestIndex' and 'obj' in n:
-                    o = it.eval(fn, S[n['obj']], env)
-                    i = it.eval(fn, S[n['args'][0]], env)
-                    return 1 <= i <= len(o['v'][1])
                 if n['k'] in ('CXXConstructExpr', 'CXXTemporaryObjectExpr') and n.get('args'):
                     a = it.eval(fn, S[n['args'][0]], env)      # copy / move of a typification
                     if isinstance(a, Obj) and a.get('__kind__') == 'typ':
@@ -1244,7 +1240,10 @@ def typing_rules(db, rule, tier='quick'):
                 if bad:
                     break
         except OutOfFragment as e:
-            rule.broken('TypeAuditor::%s outside the evaluable fragment: %s' % (name, e))
+            if str(e).startswith(('tuple component', 'unchecked', 'std::get on the wrong alternative')):
+                rule.violation(name, '%s:%d' % (f.file, f.line), 'the rule faults instead of rejecting: %s (an exception or invalid access escapes the type check)' % e)
+            else:
+                rule.broken('TypeAuditor::%s outside the evaluable fragment: %s' % (name, e))
             continue
         total += cases
         if bad:
@@ -1359,6 +1358,8 @@ def recursion_typing(db, rule):
             rule.broken('ViRecursion outside the evaluable fragment: %s' % e)
             return
         bad = str(e)
+        if 'budget' in bad or 'loop bound' in bad:
+            bad = 'the type deduction does not terminate when the type of the step keeps changing (e.g. initial type %s with a step that nests the variable one level deeper each round): CheckType never returns' % _show_t(init)
     if bad:
         rule.violation('ViRecursion', '%s:%d' % (f.file, f.line), bad)
     else:
